@@ -1288,7 +1288,8 @@ def _make_dyn_sibling(om):
 
 def _apply_solver_cfg(om, model, gobj, cfg):
     """cfg['linear'] in {None,'runonce','direct','direct_asm','krylov','lbgs','lbjac'}, applied at the
-    root; cfg['sub_linear'] the same for every sub-group; cfg['jac'] in {None,'dense','csc','csr'}."""
+    root; cfg['sub_linear'] the same for every sub-group; cfg['jac'] in {None,'dense','csc','csr'};
+    cfg['sub_approx'] in {None,'cs','fd'}: approx_totals on every direct child group of the root."""
     def mk(kind):
         rc = cfg.get('rhs_checking') or False
         if kind == 'direct':
@@ -1335,6 +1336,10 @@ def _apply_solver_cfg(om, model, gobj, cfg):
         if cfg.get('sub_by_depth'):
             # different solvers per nesting depth (1 = direct child of the root)
             kind = cfg['sub_by_depth'].get(str(path.count('.') + 1), kind)
+        if cfg.get('sub_approx') and '.' not in path:
+            # semi-total derivatives: every direct child group of the root approximates its own
+            # jacobian (complex step is exact for the generated affine components)
+            g.approx_totals(method=cfg['sub_approx'])
         ls = mk(kind)
         if ls is not None:
             g.linear_solver = ls
